@@ -227,6 +227,11 @@ func checkC18WS(sc *Scenario, res *RunResult, t *Truth) []Violation {
 	}
 	for _, p := range sc.Project.Procs {
 		w := procs[p.Name]
+		if cause == "follower-stopped-reading" {
+			// the log of a process that is held up for ever cannot even be read: the same
+			// finding (follower-holds-up-the-process) seen from the other side
+			break
+		}
 		if got := res.FinalLogs[p.Name]; len(w.lines) > 0 && len(w.lines) <= 1000 {
 			have := map[string]bool{}
 			for _, l := range got {
